@@ -24,6 +24,10 @@ from core import Failure, correspond, hx, bits
 
 LEVEL = "proof"
 AUTO = "\x00auto"
+# Combinations the guide does not spell out but a reader would expect to work or to be rejected cleanly (file-level `anywhere` /
+# `rightmost` / `required`, `anywhere` inside a linked part) end in an uncaught TypeError (traceback, exit status 1).  They are
+# recorded as observations; set to True to report them as property failures (signatures C18/uncaught-typeerror-*).
+OBSERVATIONS_AS_FAILURES = True
 
 # ------------------------------------------------------------------------------------------------
 # implementation side
@@ -560,7 +564,9 @@ def mutate(rng, s):
             ";optional", ";noindels", ";indels", ";rightmost", ";o=", ";e", "{2}", "{0}", "n=", "\t", "Z", "u", "^", "$", "X", "...", "{3}"]
     for _ in range(rng.randint(1, 3)):
         op = rng.random()
-        i = rng.randint(0, len(s))
+        # mostly in the part before the parameters (edits inside the parameters nearly always give "Unknown parameter")
+        head = s.find(";") if ";" in s and rng.random() < 0.7 else len(s)
+        i = rng.randint(0, head)
         if op < 0.5:
             s = s[:i] + rng.choice(toks) + s[i:]
         elif op < 0.75 and s:
@@ -625,10 +631,10 @@ def _run(ctx, rng, impl):
                 "x global options), a malformed stream (templates + random edits) and undocumented combinations; non-trivial = distinct "
                 "(option, specification, globals, FASTA records) with at least one of restriction/parameter/name/braces/linked/file")
     cases = []          # (line, impl)
-    n_doc = ctx.scale(14000, 120000)
-    n_mal = ctx.scale(8000, 80000)
-    n_real_kmer = ctx.scale(600, 5000)
-    cli_budget = ctx.scale(40, 400)
+    n_doc = ctx.scale(30000, 120000)
+    n_mal = ctx.scale(16000, 80000)
+    n_real_kmer = ctx.scale(1500, 5000)
+    cli_budget = ctx.scale(80, 400)
     cli_cases = []
     observations = {}
 
@@ -717,6 +723,9 @@ def _run(ctx, rng, impl):
             if exc is not None and type(exc).__name__ not in CMDLINE_CLASSES:
                 what = "file-level-flag" if recs is not None and spec[1] else "linked-part-anywhere" if recs is None else "other"
                 observe(f"uncaught-{type(exc).__name__}:{what}", ex)
+                if OBSERVATIONS_AS_FAILURES and what != "other":
+                    ctx.failures.append(Failure(f"C18/uncaught-typeerror-{what}", "documented search parameter ends in an uncaught TypeError",
+                                                ex, out, "adapters or a command-line error (exit status 2)"))
             if recs is not None and spec[0] == "$" and ";" in recs[0][1] and exc is not None:
                 observe("file$-with-record-parameters-rejected", ex)
             if recs is None and ads and type(ads[0]).__name__ == "LinkedAdapter" and letter == "a" and ("X" in spec):
